@@ -54,6 +54,20 @@ def main(seed, ncases, driver, out):
         off = np.cumsum([0] + sizes); idx_of = [list(range(off[b], off[b + 1])) for b in range(N)]
         order_map = lambda n: n; kw = dict(subspace_indices=blocks, fully_diagonalize=fd)
         try:
+            q = None
+            if fmt in ("rotated-eigenbasis", "projection"):
+                # a basis of the caller's: dense unitary, or sparse (2x2 rotations of pairs of states, some across blocks); the vectors as arrays or in a sparse format;
+                # one perturbation diagonal in the caller's basis (an on-site potential), as an array or sparse
+                if rnd.random() < 0.5: q, _ = np.linalg.qr(rng.normal(size=(d, d)) + 1j * rng.normal(size=(d, d)))
+                else:
+                    q = np.eye(d, dtype=complex); ps = list(range(d)); rnd.shuffle(ps)
+                    for a_, b_ in zip(ps[0::2], ps[1::2]):
+                        th = rng.uniform(0.3, 1.2); ph = np.exp(1j * rng.uniform(0, 6))
+                        q[np.ix_([a_, b_], [a_, b_])] = np.array([[np.cos(th), -np.sin(th) * ph], [np.sin(th) * np.conj(ph), np.cos(th)]])
+                    q = q[:, rng.permutation(d)] if False else q
+                vform = rnd.choice(["array", "csr_array", "csr_matrix"]); desc["vectors"] = vform
+                if rnd.random() < 0.7:
+                    Dg = np.diag(rng.integers(-3, 4, size=d).astype(complex)); terms[(0, 1)] = q.conj().T @ Dg @ q; desc["site_diagonal_term"] = True
             ref = block_diagonalize(dict(terms), subspace_indices=blocks, fully_diagonalize=fd)
             if fmt == "analytic-dummy": pass
             if fmt == "sympy-analytic":
@@ -85,8 +99,12 @@ def main(seed, ncases, driver, out):
             elif fmt == "eigenvectors":
                 got = block_diagonalize(dict(terms), subspace_eigenvectors=[np.eye(d)[:, ix] for ix in idx_of], fully_diagonalize=fd)
             elif fmt == "rotated-eigenbasis":
-                q, _ = np.linalg.qr(rng.normal(size=(d, d)) + 1j * rng.normal(size=(d, d)))
-                got = block_diagonalize({n: q @ m @ q.conj().T for n, m in terms.items()}, subspace_eigenvectors=[q[:, ix] for ix in idx_of], fully_diagonalize=fd)
+                vc = {"array": np.array, "csr_array": sparse.csr_array, "csr_matrix": sparse.csr_matrix}[vform]
+                def carrier(n, m):
+                    m = q @ m @ q.conj().T
+                    if n == (0, 1) and desc.get("site_diagonal_term"): m = np.diag(np.diag(m))          # (exactly diagonal: rounding residues removed)
+                    return sparse.csr_array(m) if vform != "array" and rnd.random() < 0.7 else m
+                got = block_diagonalize({n: carrier(n, m) for n, m in terms.items()}, subspace_eigenvectors=[vc(q[:, ix]) for ix in idx_of], fully_diagonalize=fd)
             elif fmt == "nested-blocks":
                 got = block_diagonalize({n: [[m[np.ix_(idx_of[i], idx_of[j])] for j in range(N)] for i in range(N)] for n, m in terms.items()}, fully_diagonalize=fd)
             elif fmt == "blockseries":
@@ -97,9 +115,11 @@ def main(seed, ncases, driver, out):
                 conv = S if fmt.endswith("sympy") else (lambda m: m)
                 got = block_diagonalize({n: conv(m[np.ix_(perm, perm)]) for n, m in terms.items()}, subspace_indices=labels, fully_diagonalize=fd)
             else:   # operator_to_BlockSeries returns exactly the blocks L_i^H A R_j
-                q, _ = np.linalg.qr(rng.normal(size=(d, d)) + 1j * rng.normal(size=(d, d)))
+                vc = {"array": np.array, "csr_array": sparse.csr_array, "csr_matrix": sparse.csr_matrix}[vform]
                 vec = [q[:, ix] for ix in idx_of]
-                op = operator_to_BlockSeries(dict(terms), subspace_eigenvectors=vec, hermitian=rnd.random() < 0.5)
+                if desc.get("site_diagonal_term"): terms[(0, 1)] = Dg                                   # the operator itself is diagonal in the basis it is given in
+                given = {n: (sparse.csr_array(m) if vform != "array" and rnd.random() < 0.7 else m) for n, m in terms.items()}
+                op = operator_to_BlockSeries(given, subspace_eigenvectors=[vc(v_) for v_ in vec], hermitian=rnd.random() < 0.5)
                 bad = None
                 for n in terms:
                     for i in range(N):
